@@ -40,6 +40,18 @@ chk('C05', 'model_checking', 'explicit-state BFS over all update() schedules (ch
     'trusted: vf/dref.py; finite family of signal sets (fixed time sets, values {-1,2}); coverage of the output is not constrained',
     'DESIGN.md section 5 C05')
 
+chk('C10', 'model_checking', 'explicit-state BFS over pre-reset histories; reset() applied in every reached state; bounded behavioural comparison with a fresh monitor',
+    'every state of the real online monitor reached by the BFS (discrete: product BFS; dense: all schedule prefixes), including the initial one, is reset and then driven with a family of '
+    'post-reset input sequences; outputs and the violation counter must equal those of a freshly parsed (and pastified) monitor',
+    'post-reset futures are compared on a bounded probe family (all sequences of length <= 2 plus constant probes longer than the largest bound)',
+    'DESIGN.md section 5 C10')
+
+chk('C13', 'model_checking', 'explicit-state BFS over time-stamp gap sequences of the real online monitor per configuration, exhaustive offline time columns',
+    'for each of 40 configurations (period, period unit, default unit, tolerance) all gap sequences over an 8-letter dyadic gap alphabet are explored on the real online monitor with the counters in the state key; '
+    'the counter must equal the exact number of out-of-tolerance gaps and the robustness must be unaffected; the same sequences are evaluated offline (offline and combined specification)',
+    'dyadic periods/tolerances so that the interval test is exact; time-stamps in the default unit; sequence length bounded',
+    'DESIGN.md section 5 C13')
+
 def main():
     props = [json.loads(l) for l in open(os.path.join(ROOT, 'properties.jsonl'))]
     checks = []
